@@ -301,6 +301,10 @@ impl<const N: u32> PxE1<{ N }> {
         }
 
         let i_z = convert_px1bits_to_u32(ui_a);
+        if i_z > i32::MAX as u32 {
+            // the helper serves to_u32 and saturates at u32::MAX; clamp to the i32 range here
+            return if sign { i32::MIN } else { i32::MAX };
+        }
         u32_with_sign(i_z, sign) as i32
     }
 
